@@ -325,3 +325,55 @@ func (e *Engine) frameCheck(fr *Frame, out *State, fp *footprint) {
 func heapLabel(h string) string { return h }
 
 var _ = token.NoPos
+
+// ContextCovers returns, for every obligation of res, cover queries with the same context and
+// the goal `false` - one per disjunct of the obligation's path condition (a merged state's
+// path condition is the disjunction of the paths merged): if a solver answers unsat that path
+// is contradictory and the obligation was (or would be) discharged vacuously on it.  Audit aid
+// (`gvc vc -audit`): dead code gives such contexts legitimately, so the answers are for a
+// human to look at.
+func ContextCovers(res *FuncResult) []*Obligation {
+	defs := map[string]string{}
+	for _, l := range res.Lines {
+		if strings.HasPrefix(l, "(define-fun ") && strings.Contains(l, " () Bool ") {
+			rest := l[len("(define-fun "):]
+			sp := strings.Index(rest, " ")
+			name := rest[:sp]
+			body := rest[sp+len(" () Bool "):]
+			defs[name] = strings.TrimSuffix(body, ")")
+		}
+	}
+	var disjuncts func(pc string, depth int) []string
+	disjuncts = func(pc string, depth int) []string {
+		body := pc
+		if d, ok := defs[pc]; ok {
+			body = d
+		}
+		t := parseSx(body)
+		if t == nil || !t.isL || t.head() != "or" || depth > 3 {
+			return []string{pc}
+		}
+		var out []string
+		for _, ch := range t.list[1:] {
+			out = append(out, disjuncts(ch.String(), depth+1)...)
+		}
+		return out
+	}
+	var out []*Obligation
+	for _, o := range res.Obls {
+		ds := disjuncts(o.PC, 0)
+		if len(ds) > 12 {
+			ds = []string{o.PC}
+		}
+		for k, d := range ds {
+			c := *o
+			c.Name = fmt.Sprintf("%s#context%d/%d", o.Name, k+1, len(ds))
+			c.Kind = "cover"
+			c.PC = d
+			c.Goal = "false"
+			c.Status, c.Solver, c.Model, c.Millis = "", "", "", 0
+			out = append(out, &c)
+		}
+	}
+	return out
+}
